@@ -431,7 +431,11 @@ def handleChangelog (id : String) (xs : List Sx) : String :=
   let strong := plus.all (fun r => untouched.all (fun x => !(x.s < x.e) || strongClear r x))
   let resp := respects out untouched
   let b (x : Bool) := if x then "1" else "0"
-  s!"(res {id} (model{String.join (model.map (fun i => s!" ({i.s} {i.e})"))}) (sound {b sound}) (strongclear {b strong}) (respects {b resp}))"
+  -- the hypothesis of `header_comments_survive_the_filter` on the intervals the real changelog returned
+  let hdr := match Sx.field xs "filepos" with
+    | [p] => s!" (hdrclear {b (startsClearB p.asNat out)})"
+    | _ => ""
+  s!"(res {id} (model{String.join (model.map (fun i => s!" ({i.s} {i.e})"))}) (sound {b sound}) (strongclear {b strong}) (respects {b resp}){hdr})"
 
 def handleLine (sc : Option Schema) (line : String) : String :=
   match Sx.ofString line with
